@@ -131,6 +131,25 @@ fn mn_configs(thorough: bool) -> Vec<MnConfig> {
             }
         }
     }
+    // dimensions just past 16, 32, 64, 128, 256 (thorough 1024), column weights 3..5 (and 9, 17)
+    let big: Vec<(usize, usize)> = if thorough {
+        vec![(17, 3), (33, 2), (64, 1), (65, 3), (129, 2), (257, 3), (1025, 2), (3, 65), (4, 257), (70, 140)]
+    } else {
+        vec![(17, 3), (33, 2), (64, 1), (65, 3), (129, 2), (257, 3), (3, 65), (70, 140)]
+    };
+    for (nrows, ncols) in big {
+        for wc in [3usize, 4, 5, 9, 17] {
+            if wc > nrows {
+                continue;
+            }
+            let wr = ((ncols * wc).div_ceil(nrows) + 1).max(2);
+            for fill_policy in [FillPolicy::Random, FillPolicy::Uniform] {
+                for (min_girth, girth_trials) in [(None, 0usize), (Some(6), 5)] {
+                    v.push(MnConfig { nrows, ncols, wr, wc, backtrack_cols: 1, backtrack_trials: 3, min_girth, girth_trials, fill_policy });
+                }
+            }
+        }
+    }
     v
 }
 
@@ -366,6 +385,11 @@ pub fn run(run: &Run) -> i32 {
                 }
             }
         }
+        for (r, c) in [(17usize, 20usize), (33, 40), (65, 70), (129, 3), (257, 5), (5, 65), (70, 140)] {
+            for wc in [3usize, 9, 17] {
+                pegs.push((r, c, wc));
+            }
+        }
         extra.insert("peg_configurations".into(), json!(pegs.len()));
         let a2 = par_items(&pegs, |&(r, c, w), a| {
             for s in base..base + nseeds {
@@ -408,7 +432,7 @@ pub fn run(run: &Run) -> i32 {
         run,
         acc,
         Coverage {
-            rule: "MacKay-Neal: rows 2..6(8) x cols 2..10(14) x wc 1..3 x wr in {ceil(cols*wc/rows), +1, cols} x {Random, Uniform} x min girth {None, 4/6/8 with 0/5/50 trials, 3/5/7 with 5 trials} x backtracking {(0,0),(1,3),(2,10)}, each with a window of 32 (128) consecutive seeds starting at VERIF_SEED*64, every run executed twice (determinism); PEG: rows 1..6(8) x cols 1..10(14) x wc 1..4 (including wc > rows) x the same seeds with the edge rule replayed edge by edge against the harness's own BFS on the partial graph; seed search: on every 13th (5th) configuration the per-seed outcome set of a 24-seed window is computed exhaustively, then search() is run under rayon pools of 1, 2, 4 and 16 threads (3 repetitions) on the whole window and on windows ending just before / just at the first successful seed; where at least half of the window succeeds also with try counts of 2^32, 2^32+1 and 2^33+5 (a count beyond 32 bits). Non-trivial = successful construction (all invariants checked) / search with more than one admissible answer.".into(),
+            rule: "MacKay-Neal and PEG also on dimensions just past 16, 32, 64, 128, 256 with column weights 3..17; MacKay-Neal: rows 2..6(8) x cols 2..10(14) x wc 1..3 x wr in {ceil(cols*wc/rows), +1, cols} x {Random, Uniform} x min girth {None, 4/6/8 with 0/5/50 trials, 3/5/7 with 5 trials} x backtracking {(0,0),(1,3),(2,10)}, each with a window of 32 (128) consecutive seeds starting at VERIF_SEED*64, every run executed twice (determinism); PEG: rows 1..6(8) x cols 1..10(14) x wc 1..4 (including wc > rows) x the same seeds with the edge rule replayed edge by edge against the harness's own BFS on the partial graph; seed search: on every 13th (5th) configuration the per-seed outcome set of a 24-seed window is computed exhaustively, then search() is run under rayon pools of 1, 2, 4 and 16 threads (3 repetitions) on the whole window and on windows ending just before / just at the first successful seed; where at least half of the window succeeds also with try counts of 2^32, 2^32+1 and 2^33+5 (a count beyond 32 bits). Non-trivial = successful construction (all invariants checked) / search with more than one admissible answer.".into(),
             exhaustive: true,
             extra,
             graph: None,
